@@ -250,3 +250,57 @@ func EvalScope(src string, vars map[string]rel.Value) Outcome {
 		return syntax.EvalWithScope(Ctx(), syntax.NoPath, src, scope)
 	})
 }
+
+// Outcome2 is an evaluation outcome whose error has not been rendered yet.
+type Outcome2 struct {
+	Outcome
+	ErrObj error
+}
+
+// EvalNoRender compiles and evaluates src; an error is returned as an object
+// (its message is not computed).
+func EvalNoRender(ctx context.Context, src string) (out Outcome2) {
+	defer func() {
+		if r := recover(); r != nil {
+			buf := make([]byte, 1<<16)
+			buf = buf[:runtime.Stack(buf, false)]
+			out = Outcome2{Outcome: Outcome{Kind: "panic", Panic: fmt.Sprint(r), Site: PanicSite(string(buf)), Stack: string(buf)}}
+		}
+	}()
+	v, err := syntax.EvaluateExpr(ctx, syntax.NoPath, src)
+	if err != nil {
+		return Outcome2{Outcome: Outcome{Kind: "error"}, ErrObj: err}
+	}
+	if v == nil {
+		return Outcome2{Outcome: Outcome{Kind: "error", Err: "nil value without error"}}
+	}
+	return Outcome2{Outcome: Outcome{Kind: "value", Value: v}}
+}
+
+// RenderErr computes err.Error() under a watchdog. ok is false if it did not
+// finish in d; stacks then holds a dump of all goroutines.
+func RenderErr(err error, d time.Duration) (msg string, ok bool, stacks string) {
+	ch := make(chan string, 1)
+	go func() {
+		defer func() {
+			if r := recover(); r != nil {
+				ch <- fmt.Sprintf("<panic while rendering the error: %v>", r)
+			}
+		}()
+		ch <- err.Error()
+	}()
+	select {
+	case m := <-ch:
+		return m, true, ""
+	case <-time.After(d):
+		buf := make([]byte, 1<<20)
+		buf = buf[:runtime.Stack(buf, true)]
+		return "", false, string(buf)
+	}
+}
+
+// AllStacks dumps every goroutine.
+func AllStacks() string {
+	buf := make([]byte, 1<<21)
+	return string(buf[:runtime.Stack(buf, true)])
+}
